@@ -4,26 +4,52 @@
 use crate::exec::{run_script, ExecOpts, Stats};
 use crate::script::*;
 
-fn fails(s: &Script, class: &str) -> bool {
+/// In-process predicate: fast, but sees whatever hidden state earlier runs
+/// left in the library (a cache in a static, say).
+pub fn fails_in_process(s: &Script, class: &str) -> Option<usize> {
     let mut st = Stats::default();
     let opts = ExecOpts { crosscheck: false, collect_samples: false, lean: false };
     match run_script(s, &mut st, &opts).0 {
-        Some(v) => v.class == class,
-        None => false,
+        Some(v) if v.class == class => Some(v.op_index),
+        _ => None,
     }
 }
 
-fn failing_index(s: &Script) -> Option<usize> {
-    let mut st = Stats::default();
-    let opts = ExecOpts { crosscheck: false, collect_samples: false, lean: false };
-    run_script(s, &mut st, &opts).0.map(|v| v.op_index)
+/// Fresh-process predicate: executes the script with `--replay` in a new
+/// process, so that no state from earlier runs can take part.
+pub fn fails_in_fresh_process(s: &Script, class: &str) -> Option<usize> {
+    let path = simcore::verif_root()
+        .join("sim")
+        .join("target")
+        .join(format!("c18-scratch-{}.json", std::process::id()));
+    let body = serde_json::json!({"property": "C18", "class": class, "script": s.to_json()});
+    simcore::evidence::write_json_atomic(&path, &body).ok()?;
+    let exe = std::env::current_exe().ok()?;
+    let o = std::process::Command::new(exe)
+        .arg("--replay")
+        .arg(&path)
+        .arg("--expect-class")
+        .arg(class)
+        .output()
+        .ok()?;
+    let _ = std::fs::remove_file(&path);
+    if o.status.code() != Some(simcore::EXIT_VIOLATION) {
+        return None;
+    }
+    let text = String::from_utf8_lossy(&o.stdout);
+    text.lines()
+        .find_map(|l| l.strip_prefix("failing-event-index "))
+        .and_then(|x| x.trim().parse().ok())
 }
 
-pub fn shrink(mut s: Script, class: &str) -> Script {
+pub type Pred<'a> = &'a dyn Fn(&Script, &str) -> Option<usize>;
+
+pub fn shrink(mut s: Script, class: &str, pred: Pred, mut budget: usize) -> Script {
+    let fails = |c: &Script, class: &str| pred(c, class).is_some();
+    let failing_index = |c: &Script| pred(c, class);
     if !fails(&s, class) {
         return s;
     }
-    let mut budget = 4000usize;
     loop {
         let mut changed = false;
         // cut everything after the failing op
@@ -58,11 +84,16 @@ pub fn shrink(mut s: Script, class: &str) -> Script {
                     o.ticks = [0, 0, 0];
                     cands.push(o);
                 }
+                if op.slot.is_some() {
+                    let mut o = op.clone();
+                    o.slot = None;
+                    cands.push(o);
+                }
                 if let OpKind::Parse { ty, toks } = &op.kind {
                     for ti in (0..toks.len()).rev() {
                         let mut t2 = toks.clone();
                         t2.remove(ti);
-                        cands.push(Op { kind: OpKind::Parse { ty: *ty, toks: t2 }, ticks: op.ticks });
+                        cands.push(Op { kind: OpKind::Parse { ty: *ty, toks: t2 }, ticks: op.ticks, slot: op.slot });
                     }
                     let mut t3 = toks.clone();
                     let mut any = false;
@@ -79,7 +110,7 @@ pub fn shrink(mut s: Script, class: &str) -> Script {
                         }
                     }
                     if any {
-                        cands.push(Op { kind: OpKind::Parse { ty: *ty, toks: t3 }, ticks: op.ticks });
+                        cands.push(Op { kind: OpKind::Parse { ty: *ty, toks: t3 }, ticks: op.ticks, slot: op.slot });
                     }
                 }
                 for cand in cands {
